@@ -13,8 +13,8 @@ type gen struct {
 	r       *prng.R
 	o       *hx.Out
 	budget  int  // remaining node budget of the tree
-	hasFee  bool // a Policy setter occurs: the committee must sign
 	natives bool
+	deploys int
 }
 
 var flagChoices = []int{11, 3, 1, 0, 14, 10, 6, 9, 12, 4, 8, 2}
@@ -72,9 +72,9 @@ func (g *gen) node(x gx) *Node {
 			fl := g.flags(80)
 			return &Node{Op: nCall, C: callee, Fl: fl, Body: g.list(gx{callee, 0, 3, x.quiet, x.f.and(flagsOf(fl)), x.h})}
 		}
-		w = []int{1, 0, 1, 0, 44, 4, 22, 2, 1, 0, 2}
+		w = []int{1, 0, 1, 0, 44, 4, 22, 2, 1, 0, 3}
 	} else {
-		w = []int{22, 6, 12, 8, 18, 4, 16, 2, 1, 7, 2}
+		w = []int{22, 6, 12, 8, 18, 4, 16, 2, 1, 7, 5}
 	}
 	if x.h {
 		w[7] = 8
@@ -163,11 +163,11 @@ func (g *gen) node(x gx) *Node {
 	case 9:
 		to := g.r.Intn(numContracts + 1)
 		if to == numContracts {
-			to = extAcc
+			to = plainAccounts[g.r.Intn(len(plainAccounts))]
 		}
 		nat := &NatOp{Kind: natTransfer, Tok: 0, To: to, Amt: amounts[g.r.Intn(len(amounts))]}
 		fl := g.flags(90)
-		if to < extAcc && g.r.Bool() {
+		if to < numContracts && g.r.Bool() {
 			nat.HasCb = true
 			y := x.sub(3)
 			y.c, y.f = to, x.f.and(flagsOf(fl))
@@ -175,13 +175,22 @@ func (g *gen) node(x gx) *Node {
 		}
 		return &Node{Op: nNative, Fl: fl, Nat: nat}
 	default:
-		g.hasFee = true
-		return &Node{Op: nNative, Fl: g.flags(90), Nat: &NatOp{Kind: natSetFee, Val: g.r.Range(1, 5000)}}
+		switch x := g.r.Intn(10); {
+		case x < 3:
+			return &Node{Op: nNative, Fl: g.flags(90), Nat: &NatOp{Kind: natSetFee, Val: g.r.Range(1, 5000)}}
+		case x < 6:
+			return &Node{Op: nNative, Fl: g.flags(90), Nat: &NatOp{Kind: natBlock, Val: plainAccounts[g.r.Intn(len(plainAccounts))]}}
+		case x < 8 || g.deploys >= 3:
+			return &Node{Op: nNative, Fl: g.flags(90), Nat: &NatOp{Kind: natUnblock, Val: plainAccounts[g.r.Intn(len(plainAccounts))]}}
+		default:
+			g.deploys++
+			return &Node{Op: nNative, Fl: g.flags(90), Nat: &NatOp{Kind: natDeploy, Val: g.r.Intn(numAux)}}
+		}
 	}
 }
 
 // tree generates a transaction's tree.
-func genTree(r *prng.R, o *hx.Out, natives bool) ([]*Node, bool) {
+func genTree(r *prng.R, o *hx.Out, natives bool) txPlan {
 	g := &gen{r: r, o: o, budget: 32, natives: natives}
 	depth := r.Range(2, 4)
 	t := g.list(gx{entryID, depth, 3, false, flagsOf(15), false})
@@ -189,7 +198,7 @@ func genTree(r *prng.R, o *hx.Out, natives bool) ([]*Node, bool) {
 		c := r.Intn(numContracts)
 		t = []*Node{{Op: nCall, C: c, Fl: 15, Body: g.list(gx{c, depth - 1, 4, false, flagsOf(15), false})}}
 	}
-	return t, g.hasFee
+	return planOf(t)
 }
 
 // stats walks a tree and feeds the input-distribution counters.
@@ -245,7 +254,7 @@ func treeStats(o *hx.Out, l []*Node, depth int, maxDepth *int, nodes *int) {
 				}
 				treeStats(o, n.Nat.Cb, depth+1, maxDepth, nodes)
 			} else {
-				o.Count("node:policy-set")
+				o.Count([]string{"", "node:policy-setFeePerByte", "node:policy-blockAccount", "node:policy-unblockAccount", "node:management-deploy"}[n.Nat.Kind])
 			}
 		}
 	}
